@@ -160,6 +160,33 @@ def run_tlc(ctx, module, cfg, workers=4, timeout=600, env=None, extra=None, xmx=
     return res
 
 
+def apalache_lemma(ctx, module, init, inv, wrong, timeout=600):
+    """A state predicate over unconstrained integers, discharged by Apalache at length 0; `wrong` must be refuted."""
+    def run(v):
+        out = ctx.path("apalache_%s" % v)
+        p = subprocess.run(["timeout", str(timeout), "apalache-mc", "check", "--init=" + init, "--inv=" + v, "--length=0",
+                            "--out-dir=" + out, os.path.join(SPEC, module)], cwd=SPEC, stdout=subprocess.PIPE, stderr=subprocess.STDOUT, text=True)
+        shutil.rmtree(out, ignore_errors=True)
+        if "The outcome is: NoError" in p.stdout:
+            return True
+        if "The outcome is: Error" in p.stdout:
+            return False
+        sys.stdout.write(p.stdout[-2000:])
+        raise ToolError("apalache did not decide %s in %s" % (v, module))
+    t0 = time.time()
+    if not run(inv):
+        raise ToolError("apalache refuted %s in %s" % (inv, module))
+    if run(wrong):
+        raise ToolError("apalache accepted the vacuity witness %s in %s" % (wrong, module))
+    ctx.cov["tlc_runs"].append({"cfg": module, "role": "Apalache: %s holds for all integers admitted by %s; %s refuted" % (inv, init, wrong),
+                                "wall_s": round(time.time() - t0, 2)})
+    ctx.cov["obligations"] = ctx.cov.get("obligations", 0) + 1
+    ctx.cov["discharged"] = ctx.cov.get("discharged", 0) + 1
+    ctx.cov["checker_cmd"] = "apalache-mc check --init=%s --inv=%s --length=0 %s" % (init, inv, module)
+    ctx.cov["trusted_base"] = ["Apalache 0.58 and Z3"]
+    log("  apalache: %s proved for all integers (%s)" % (inv, module))
+
+
 def apalache_inductive(ctx, module, init, indinit, inv, wrong=None, timeout=900):
     """Unbounded safety of a small integer spec: Apalache discharges `init => inv` (length 0) and `indinit /\\ Next => inv'`
     (length 1); `wrong` is a predicate that must NOT be inductive (vacuity witness). A failure here is a tool error."""
